@@ -275,6 +275,32 @@ def run_assign(chk, spec):
 	chk.observe(v, "setitem-" + ("ok" if o.ok else "failed"))
 
 
+def run_transpose(chk, spec):
+	"""the rows of a transposed table are typed from their own cells: a None that sits in a later column - put there by inference or by a write - makes exactly the rows that hold it nullable"""
+	import warnings
+	cols = {"int": [[1, 2, 3], [4, 5, 6], [7, 8, 9]], "float": [[1.5, 2.5, 3.5], [4.5, 5.5, 6.5], [7.5, 8.5, 9.5]], "str": [["a", "b", "c"], ["d", "e", "f"], ["g", "h", "i"]], "int-float": [[1, 2, 3], [4.5, 5.5, 6.5], [7, 8, 9]]}[spec["kind"]]
+	cols = [list(c) for c in cols]
+	with warnings.catch_warnings():
+		warnings.simplefilter("ignore")
+		if spec["how"] == "inferred":
+			cols[spec["col"]][spec["row"]] = None
+			t = Table({f"c{j}": c for j, c in enumerate(cols)})
+		else:
+			t = Table({f"c{j}": c for j, c in enumerate(cols)})
+			call(t.__setitem__, (spec["row"], f"c{spec['col']}"), None)
+		o = call(lambda: t.T)
+	chk.judged("weak-point", ("transpose", spec["kind"], spec["how"], spec["col"], spec["row"]))
+	if not o.ok or not isinstance(o.value, Table):
+		chk.skip("transpose-unavailable")
+		return
+	for vec in o.value.cols():
+		chk.observe(vec, "transpose")
+	o2 = call(lambda: o.value.T)
+	if o2.ok and isinstance(o2.value, Table):
+		for vec in o2.value.cols():
+			chk.observe(vec, "transpose-twice")
+
+
 def run_rows(chk, spec):
 	"""rows are vectors: read a row, write a cell that changes a column's nullability or kind, read rows again - the row, row.copy(), row[a:b] and
 	row arithmetic must report a dtype that covers the cells"""
@@ -389,7 +415,7 @@ def _renamed(v):
 	return v if r is None else r
 
 
-RUNNERS = {"rows": run_rows, "unusual": run_unusual, "weak": run_weak, "assign": run_assign, "history": run_history, "recompute": recompute.runner("C03")}
+RUNNERS = {"transpose": run_transpose, "rows": run_rows, "unusual": run_unusual, "weak": run_weak, "assign": run_assign, "history": run_history, "recompute": recompute.runner("C03")}
 
 WEAK_OPS = ["radd-scalar", "radd-list", "rsub-scalar", "rmul-scalar", "rtruediv", "rpow", "add-wider-scalar", "add-wider-vector", "neg", "pos", "abs", "invert",
 	"lshift-wider", "lshift-none", "lshift-str", "lshift-list-mixed", "lshift-vector", "rlshift", "cast-str", "cast-float", "cast-int", "cast-bool", "cast-callable", "cast-date-from-iso", "cast-datetime-from-iso", "cast-date-of-dates", "cast-date-of-datetimes", "cast-datetime-of-dates", "promoted-date-plus-int", "promoted-date-plus-intvec", "promoted-date-minus-timedelta", "promoted-int-abs", "promoted-int-neg",
@@ -428,6 +454,11 @@ def run(chk):
 						if not chk.mine(idx):
 							continue
 						chk.case("assign", {"kind": kind, "form": form, "nullable": nullable, "specials": specials, "n": rng.choice([3, 4, 5]), "m": 3, "seed": rng.randrange(10**9)}, "weak-assign")
+	for kind in ("int", "float", "str", "int-float"):
+		for how in ("inferred", "written"):
+			for col in (0, 1, 2):
+				for row in (0, 2):
+					chk.case("transpose", {"kind": kind, "how": how, "col": col, "row": row}, "weak-transpose")
 	for kind in ("bool", "int", "float", "date"):
 		for form in ("slice", "idxlist", "idxvec", "mask"):
 			for nullable in (False, True):
